@@ -402,6 +402,30 @@ PROPS = {
         "level_text": "Random message sequences compared with a reference metric model after every message; counterexample search, not proof.",
         "level_note": "Trusts the model c18Apply (written from the statement), metricslite's in-memory series and the ndp codec.",
     },
+    "C19": {
+        "parts": [
+            {"pkg": "internal/netstate", "files": ["netstate/zz_verif_C19_test.go"], "run": "TestVerif_C19"},
+            {"pkg": "internal/netstate", "files": ["netstate/zz_verif_C19_test.go"], "run": "TestVerif_C19race", "race": True},
+        ],
+        "level": "exploration",
+        "bubble": True,
+        "quick": {"shards": 8},
+        "thorough": {"shards": 16},
+        "rule": ("action sequences of 1..40 steps on a real Watcher whose OS hook is a scripted event source: Subscribe(interface, mask) over all 127 masks "
+                 "and 3 interfaces, notify with 1..12 rtnetlink link messages (all 7 operational states, unknown values, messages without attributes) "
+                 "converted by the real process(), drain(subscriber, n), end of watch; exhaustive 127 masks x 7 single changes x {same, other "
+                 "interface}; an overflow scenario around the 8-slot buffer; and (race-detector build) 300/2000 runs of Subscribe, notify and the end of "
+                 "the watch from 7 concurrent goroutines. Each sequence runs in a synctest bubble: after every notify, synctest.Wait must find the "
+                 "notifier finished (not blocked). Oracle: bounded-FIFO model per subscriber (append iff interface matches, mask intersects and fewer "
+                 "than 8 queued); channel length equals the model after every step, drained values and order equal the model, every channel "
+                 "registered before the end is closed exactly once and drains to the model's remainder; the race detector stays silent. Non-trivial: at "
+                 "least one delivered and one filtered or dropped event. Distinct: FNV-64 of the canonical JSON case."),
+        "assumptions": [STAGED, BUBBLE, "osWatch (the rtnetlink socket) is replaced by the watch hook the code provides for tests",
+                        "subscribing after the end of the watch is unspecified (such channels are never closed)"],
+        "technique": "rapid stateful (model-based) property testing against a bounded-FIFO reference model + exhaustive mask/change table + race-detector stress",
+        "level_text": "Model-based sequences with an exhaustive single-event table; interleavings under the race detector are sampled, not enumerated.",
+        "level_note": "Trusts the FIFO model in c19Prop, testing/synctest's blocked-goroutine detection and the Go race detector.",
+    },
 }
 
 NOT_APPLICABLE = {}
